@@ -129,7 +129,8 @@ def alive_after_close(stats, cid):
 def finish_trace(tr, stats):
     gc.collect()
     alive = sum(1 for r in stats["refs"] if r() is not None)
-    tr.append({"e": "stats", "creates": stats["creates"], "creator_ok": stats["creator_ok"], "alive_session": alive})
+    tr.append({"e": "stats", "creates": stats["creates"], "creator_ok": stats["creator_ok"], "creator_calls": stats["creator_calls"],
+               "alive_session": alive})
 
 
 def daemon_class(P, hookraise):
@@ -227,7 +228,7 @@ def run_history(h, shape, creator_kind, servertype="multiplex", hookraise=False,
     return tr
 
 
-def run_race(chooser, nclients, shape, creator_kind, tfilter, hookraise=False):
+def run_race(chooser, nclients, shape, creator_kind, tfilter, hookraise=False, calls=("S", "N", "S", "P")):
     """first calls of several connections racing on the thread-pool server"""
     import Pyro5.api as P
     from Pyro5 import config
@@ -235,7 +236,7 @@ def run_race(chooser, nclients, shape, creator_kind, tfilter, hookraise=False):
     config.THREADPOOL_SIZE = nclients + 1
     config.THREADPOOL_SIZE_MIN = 1
     stats = new_stats()
-    tr = [{"e": "cfg", "creator": creator_kind}]
+    tr = [{"e": "cfg", "creator": creator_kind, "race": True}]
 
     def main():
         sc = S.CUR
@@ -250,7 +251,7 @@ def run_race(chooser, nclients, shape, creator_kind, tfilter, hookraise=False):
                 p = P.Proxy(uris["S"])
                 p._pyroBind()
                 tr.append({"e": "open", "c": i})
-                for k in ("S", "N", "S", "P"):
+                for k in calls:
                     try:
                         inst = p._pyroInvoke("who", (), {}, objectId=k)
                         if k == "N":
@@ -335,10 +336,16 @@ def run(ctx):
             [("truthy", "ok", 3, tfilter, (1, ctx.pick(25, 200), ctx.pick(25, 300))),
              ("truthy", "hookraise", 2, tfilter, (1, ctx.pick(10, 100), ctx.pick(10, 100))),
              ("falsy_len", "ok", 2, tfilter, (1, ctx.pick(25, 200), ctx.pick(25, 300))),
-             ("truthy", "none", 2, tfilter_wide, (1, ctx.pick(20, 300), ctx.pick(40, 600)))]):
+             ("truthy", "none", 2, tfilter_wide, (1, ctx.pick(20, 300), ctx.pick(40, 600))),
+             # a creator that fails the first time it is called: whoever's call that was fails, the others wait for / find the one
+             # instance that is made afterwards (three connections, each making just its first call on the 'single' class twice)
+             ("truthy", "failfirst", 3, tfilter, (2, ctx.pick(150, 1500), ctx.pick(40, 400))),
+             ("eqall", "failfirst", 2, tfilter, (2, ctx.pick(40, 300), ctx.pick(20, 200)))]):
         def once(ch):
             if creator == "hookraise":
                 return run_race(ch, ncl, shape, "none", filt, hookraise=True)
+            if creator == "failfirst":
+                return run_race(ch, ncl, shape, creator, filt, calls=("S", "S"))
             return run_race(ch, ncl, shape, creator, filt)
         for ch, tr in S.explore(once, max_preemptions=bound, limit=limit, rng=rng, random_runs=nrand):
             ctx.evaluations += 1
